@@ -3,7 +3,10 @@
 // exact rational type Q.  Needs the add-only hook repo_patches/hook_sched_access.patch (friend ::amgcl_verif::access).
 //
 // Ops (the same text is fed to the Lean model, Amgcl/Driver/Schedule.lean):
-//   sched_gs  fwd nt A rhs x             tables of parallel_sweep<fwd> built with nt threads + x after the sweep
+//   sched_gs  fwd nt A rhs x             tables of parallel_sweep<fwd> built with nt threads + x after the sweep.  Result
+//                                        line: `nt N` then per thread `t K beg end ... o <ord> p <ptr> c <col> v <val>`
+//                                        (`d <D>` in addition for the upper ILU solve) — the complete thread-specific
+//                                        storage of step 4, compared token by token with Model/ScheduleLocal.lean
 //   sched_gs_asis fwd nt A rhs x         the same op; the model side uses the level loop of the UNPATCHED tree.  Only
 //                                        generated when the tree under test still has that loop (probe_variant), to tie
 //                                        the as-is model (counterexample theorems) to the as-is code
@@ -73,12 +76,16 @@ template <bool hasD, class PS> static Tables dump(const PS &ps) {
     }
     return T;
 }
-static void print_tables(Line &l, const Tables &T) {
+// the complete thread-specific storage, exactly as the constructor left it (compared token by token with the tables
+// the Lean model of steps 1-4 computes: task ranges in thread-local row numbers, ord, ptr, col, val and, for the upper
+// ILU solve, D)
+static void print_tables(Line &l, const Tables &T, bool hasD) {
     l << "nt" << T.nt;
     for (int t = 0; t < T.nt; ++t) {
         l << "t" << T.tasks[t].size();
         for (auto &k : T.tasks[t]) { l << k.first; l << k.second; }
-        l << "o" << T.ord[t];
+        l << "o" << T.ord[t] << "p" << T.ptr[t] << "c" << T.col[t] << "v" << T.val[t];
+        if (hasD) l << "d" << T.D[t];
     }
 }
 
@@ -251,7 +258,7 @@ template <bool fwd> static Result do_sched_gs(long variant, long nt, const Mat &
         if (!eqv(out, ref)) r.fail(pre + "real multi-threaded sweep differs from the serial sweep");
     }
     set_threads(1);
-    Line l; print_tables(l, T); l << "x" << out;
+    Line l; print_tables(l, T, false); l << "x" << out;
     r.out = l.get();
     r.nontrivial = A.n >= 2 && A.col.size() > (size_t)A.n;
     r.tag(fwd ? "gs_fwd" : "gs_bwd").tag("nt" + std::to_string(nt)).tag(structurally_symmetric(A) ? "symm" : "nonsymm");
@@ -285,7 +292,7 @@ template <bool lower> static Result do_sched_ilu(long nt, const Mat &A, const st
     if (conflict) out = a1;
     else { NVec X = nvec(x0); ps->solve(X); out = tovec(X); if (!eqv(out, ref)) r.fail(pre + "real multi-threaded solve differs from the serial solve"); }
     set_threads(1);
-    Line l; print_tables(l, T); l << "x" << out;
+    Line l; print_tables(l, T, !lower); l << "x" << out;
     r.out = l.get();
     r.nontrivial = A.col.size() > 0;
     r.tag(lower ? "ilu_lower" : "ilu_upper").tag("nt" + std::to_string(nt));
